@@ -588,9 +588,14 @@ def resolve(model: RefDir, op):
             tn = _pick(model.types_with_ref(), r[2])
             if tn is None:
                 return None
+            # (off any unit of the type, mostly one that is itself derived
+            # from another: the rejected definition refers to a chain)
+            us = model.types[tn]['units']
             return {'a': 'scaled_unit', 'type': tn, 'sym': s,
-                    'parent': model.types[tn]['units'][0],
-                    'k': _pick(INT_NUMS, r[3]), 'via': 'rmul',
+                    'parent': _pick(us[1:], r[6]) if len(us) > 1 and r[7] % 4
+                    else us[0],
+                    'k': _pick(INT_NUMS, r[3]), 'via': ['rmul', 'mul'][
+                        r[8] % 2],
                     'expect': 'reject', 'bad': 'dup_symbol'}
         if form == 2:
             cands = [tn for tn in types if model.types[tn]['base'] and
@@ -611,8 +616,10 @@ def resolve(model: RefDir, op):
             tn = _pick(model.types_with_ref(), r[1])
             if tn is None:
                 return None
+            us = model.types[tn]['units']
             return {'a': 'scaled_unit', 'type': tn, 'sym': '',
-                    'parent': model.types[tn]['units'][0],
+                    'parent': _pick(us[1:], r[6]) if len(us) > 1 and r[7] % 4
+                    else us[0],
                     'k': _pick(INT_NUMS, r[2]), 'via': 'rmul',
                     'expect': 'reject', 'bad': 'empty_symbol'}
         if form == 1:
